@@ -157,6 +157,16 @@ theorem PIPE_array_sum (xs : List Num) (hc : ∀ x ∈ xs, Canon x) :
     dispatchTop "sum" [.arr (xs.map .num)] [] = liftN (Arr.arraySum xs) :=
   dispatch_sum _ xs hc
 
+/-- **Interval literal and membership** (C07's `Intv.make`, `Intv.inI`, `Intv.contains` at `Rat`): on
+    every numeric kind (comparisons are exact), `[a, b]` builds the interval the interval model
+    describes — `a > b` collapses to `[0, 0]` — and `x in I`, `contains(I, x)` are its membership test. -/
+theorem PIPE_interval (a b x : Num) :
+    (∃ lo hi, dispatchTop "interval" [.num a, .num b] [] = .ok (.intv lo hi)
+        ∧ toIntv lo hi = Interval.Intv.make a.toRat b.toRat) ∧
+    dispatchTop "in" [.num x, .intv a b] [] = .ok (.num (.int (Interval.Intv.inI x.toRat (toIntv a b)))) ∧
+    dispatchTop "contains" [.intv a b, .num x] [] = .ok (.num (.int (Interval.Intv.contains (toIntv a b) x.toRat))) :=
+  ⟨dispatch_interval _ a b, (dispatch_in_interval _ x a b).1, (dispatch_in_interval _ x a b).2⟩
+
 /-! ### non-vacuity: concrete programs through the whole pipeline, evaluated by the kernel -/
 
 /-- `(1 + 2) * 3 / 4 - abs(-5)` as a C01 tree -/
